@@ -129,7 +129,8 @@ def rule_D1(ctx, repo, b):
     r = ctx.rule('C04.D1', 'hashPrevouts/hashSequence/hashOutputs selection for all 256 hash types x index orderings equals BIP143', engine='TABLE', floor=18)
     groups = {}
     rows = 0
-    for ht in range(256):
+    from ..sighash import WIDE_HASHTYPES
+    for ht in list(range(256)) + WIDE_HASHTYPES:
         base = ht & 0x1f
         cls = {2: 'NONE', 3: 'SINGLE'}.get(base, 'ALL-like')
         for oname, idx, nout in (('idx<nout', 1, 2), ('idx=nout', 2, 2), ('idx>nout', 3, 2)):
